@@ -13,8 +13,15 @@ PROP = dict(
             # outcome tables for the replay: one CASE per request path
             dict(module="FileServe", cfg=dict(quick="FileServeEmit_quick.cfg", thorough="FileServeEmit_thorough.cfg"), emit=True,
                  workers=16, timeout=dict(quick=300, thorough=1800)),
+            # extension (notes/TemplateJail.md): what template actions can read - .Include/.Files/.Markdown through the jailed
+            # Context.Root, nested and cyclic includes, markdown front matter, the input space of the other context functions;
+            # termination of every render first (liveness, small instance), then the invariants with one CASE per terminal state
+            dict(module="TemplateJail", cfg=dict(thorough="TemplateJailLive.cfg"), workers=4, timeout=dict(thorough=600)),
+            dict(module="TemplateJail", cfg=dict(quick="TemplateJail_quick.cfg", thorough="TemplateJail_thorough.cfg"), emit=True,
+                 workers=8, coverage=True, coverage_ignore=["Terminated"], timeout=dict(quick=300, thorough=900)),
         ],
-        go=[dict(pkg="c02", test="TestC02", timeout=dict(quick=600, thorough=3000))],
+        go=[dict(pkg="c02", test="TestC02", timeout=dict(quick=600, thorough=3000)),
+            dict(pkg="cx02tpl", test="TestCx02Tpl", timeout=dict(quick=300, thorough=1200))],
         exhaustive=dict(quick=False, thorough=False),
         technique="TLA+ spec FileServe.tla (CleanPath.tla) model-checked by TLC; outcome tables replayed against a real casket instance serving a token-marked tree",
         level_text="TLC checks exhaustively (request paths of <=L segments over 13 segment spellings incl. '.', '..', empty, backslash, x trailing slash x 8 Accept-Encoding sets x listing/archive queries x browse off/list/archive x plain/path-prefixed site) that the stepwise model of Server.serveHTTP -> browse -> staticfiles.serveFile serves only files the request names (InsideRoot, NoHidden, ServedIsNamed, SameOriginRedirect). The outcome table of every path is then replayed against a real instance (casket.Start from a Casketfile inside the root, raw HTTP/1.1 with percent-encoded spellings); bodies are gunzipped/unzipped/untarred and searched for the per-file tokens. Bounded model checking plus conformance replay: the input space is combinatorial and the oracle (which files) is decidable through the tokens.",
